@@ -6,8 +6,8 @@
   are data (the marshaler's and the compressor's output): the model carries them abstractly as `bytes`, and everything
   the writer decides depends only on their length and on the record's declared Content-Length.
 
-  Segmentation (the marshaler returning a continuation record) is outside this model: see C10.
-  A record the marshaler fails on is the op `failed`.
+  A record the marshaler fails on is the op `failed`. A record the marshaler splits (it returns a continuation record,
+  which the writer hands to its own write path again) is the op `seg`.
 -/
 import Gowarc.Model.Basic
 namespace Gowarc
@@ -132,15 +132,34 @@ def writeFailed (c : WCfg) (scale : Int → Int) (s : SW) (r : WRec) : SW × WRe
     let s2 := if s1.cur.isNone then createFile c s1 r.infoBytes else s1
     (s2, ⟨none, 0, 0, true⟩)
 
+/-- Write(record) when the marshaler writes a first segment `r` and hands back a continuation record `n`
+    (writeRecord calls write(n) while the lock is held). The tracked size is brought up to date before the nested write,
+    so the continuation is treated exactly like the next record: its fit test sees the file including the first segment.
+    The caller gets ONE response: the position of the first segment (the record that carries the id it wrote), the byte
+    counts added. If the continuation is refused by the fit test (unparsable Content-Length) the first segment is
+    removed again and the call is a failed Write. -/
+def writeSeg (c : WCfg) (scale : Int → Int) (s : SW) (r n : WRec) : SW × WResp :=
+  if (write c scale s r).2.err then write c scale s r
+  else
+    match fitClose c scale (write c scale s r).1 n.decl with
+    | none => writeFailed c scale s r
+    | some _ =>
+      ((write c scale (write c scale s r).1 n).1,
+       ⟨(write c scale s r).2.file, (write c scale s r).2.off,
+        (write c scale s r).2.written + (write c scale (write c scale s r).1 n).2.written,
+        (write c scale (write c scale s r).1 n).2.err⟩)
+
 inductive WOp
   | write (r : WRec)
   | rotate
   | failed (r : WRec)
+  | seg (r n : WRec)
 
 def step (c : WCfg) (scale : Int → Int) (s : SW) : WOp → SW × Option WResp
   | .write r => ((write c scale s r).1, some (write c scale s r).2)
   | .rotate => (close s, none)
   | .failed r => ((writeFailed c scale s r).1, some (writeFailed c scale s r).2)
+  | .seg r n => ((writeSeg c scale s r n).1, some (writeSeg c scale s r n).2)
 
 def run (c : WCfg) (scale : Int → Int) (s : SW) : List WOp → SW × List (Option WResp)
   | [] => (s, [])
